@@ -65,6 +65,9 @@ def finish(prop, tier, seed, results, wall, write=True):
         print("inconclusive obligations: %d, aborted paths: %d" % (len(inconc), len(aborted)))
         for e in (inconc + aborted)[:8]:
             print("   ", e[:300])
+    if os.environ.get("VERIF_TIMES"):
+        for r in sorted(results, key=lambda r: -r.get("wall_s", 0))[:int(os.environ["VERIF_TIMES"] or 10)]:
+            print("   %7.1fs  %s %s" % (r.get("wall_s", 0), r["harness"], str(r.get("params"))[:150]))
     print("%s %s: harness instances=%d paths=%d obligations=%d discharged=%d (trivial %d) queries=%d "
           "solver=%.1fs canaries=%d/%d wall=%.1fs" % (prop, tier, len(results), tot["paths"], tot["obligations"],
                                                        tot["discharged"], tot["trivial"], tot["queries"],
